@@ -270,26 +270,56 @@ Arguments world : clear implicits.
 Arguments op : clear implicits.
 
 (** ** The executable instance used by the correspondence run.
-    Zones are fixed-offset zones identified by their offset; the "hash" is the string itself (the
-    real hasher is not modelled; distinct strings are assumed to hash differently); the answer for a
-    fixed-offset zone is that offset in both directions.
+    A zone is a fixed offset, or one offset before an instant and a larger one from then on (so
+    that the two directions of a conversion differ); the "hash" is the string itself (the real
+    hasher is not modelled; distinct strings are assumed to hash differently).
     Case:  lc.history steps (files, rules, iana) times
-      files = ((x<path>, some(off) | none), ...)   rules = ((x<trimmed rule text>, off), ...)
-      iana = some(x<name>) | none
-      steps: see harness/src/ops/c18.rs;  times = one (wall0, mono0, wall1, mono1) per step, as
-      measured by the implementation run (only the readings before a conversion are used here). *)
+      steps: see harness/src/ops/c18.rs
+      files = ((x<path>, some(off) | some((off1,year,ordinal,secs,off2)) | none), ...)
+      rules = ((x<trimmed rule text>, off), ...)      iana = some(x<name>) | none
+      times = one (wall0, mono0, wall1, mono1) per step, as measured by the implementation run
+              (only the readings taken before a conversion are used here). *)
 Definition in_off (z : Z) : bool := (-86400 <? z) && (z <? 86400).
+
+Record xzone := { z_off : Z; z_step : option (Z * Z * Z * Z) }.   (* (year, ordinal, secs, offset after) *)
+Definition zfixed (o : Z) : xzone := {| z_off := o; z_step := None |}.
+
+Definition lt3 (a b : Z * Z * Z) : bool :=
+  let '(y1, o1, s1) := a in let '(y2, o2, s2) := b in
+  (y1 <? y2) || ((y1 =? y2) && ((o1 <? o2) || ((o1 =? o2) && (s1 <? s2)))).
+Definition le3 (a b : Z * Z * Z) : bool := negb (lt3 b a).
+
+(* the lookup inside one zone (find_local_time_type / find_local_time_type_from_local for a file
+   without footer, then FixedOffset::east_opt and, for the instant direction, the unwrap of mod.rs):
+   the instant direction answers an offset, the wall-clock direction none/one offset *)
+Definition xanswer (z : xzone) (local : bool) (d : Z * Z * Z) : val :=
+  match z_step z with
+  | None => if local then VTup [VInt (z_off z)] else VInt (z_off z)
+  | Some (y, o, s, after) =>
+      if local then
+        if le3 d (y, o, s + z_off z) then VTup [VInt (z_off z)]
+        else if lt3 d (y, o, s + after) then VTup []
+        else VTup [VInt after]
+      else if le3 (y, o, s) d then VInt after else VInt (z_off z)
+  end.
 
 Fixpoint assoc {A} (k : bytes) (l : list (bytes * A)) : option A :=
   match l with [] => None | (k', v) :: r => if bytes_eqb k k' then Some v else assoc k r end.
 
-Fixpoint dec_files (l : list val) : option (list (bytes * option Z)) :=
+Definition dec_zone (z : val) : option (option xzone) :=
+  match z with
+  | VNone => Some None
+  | VSome (VInt o) => if in_off o then Some (Some (zfixed o)) else None
+  | VSome (VTup [VInt o1; VInt y; VInt ord; VInt s; VInt o2]) =>
+      if in_off o1 && in_off o2 && (o1 <? o2) && (0 <=? s + o1) && (s + o2 <? 86400) && (0 <=? s)
+      then Some (Some {| z_off := o1; z_step := Some (y, ord, s, o2) |}) else None
+  | _ => None
+  end.
+Fixpoint dec_files (l : list val) : option (list (bytes * option xzone)) :=
   match l with
   | [] => Some []
   | VTup [VStr p; z] :: r =>
-      match (match z with VNone => Some None
-                        | VSome (VInt o) => if in_off o then Some (Some o) else None
-                        | _ => None end), dec_files r with
+      match dec_zone z, dec_files r with
       | Some e, Some t => if utf8_valid p then Some ((p, e) :: t) else None
       | _, _ => None
       end
@@ -299,11 +329,11 @@ Fixpoint dec_rules (l : list val) : option (list (bytes * Z)) :=
   match l with
   | [] => Some []
   | VTup [VStr p; VInt o] :: r =>
-      match dec_rules r with Some t => if in_i32 o then Some ((p, o) :: t) else None | None => None end
+      match dec_rules r with Some t => if in_off o then Some ((p, o) :: t) else None | None => None end
   | _ => None
   end.
 
-Record xworld := { x_files : list (bytes * option Z); x_rules : list (bytes * Z); x_iana : option bytes }.
+Record xworld := { x_files : list (bytes * option xzone); x_rules : list (bytes * Z); x_iana : option bytes }.
 Definition dec_world (v : val) : option xworld :=
   match v with
   | VTup [VTup f; VTup r; i] =>
@@ -316,16 +346,17 @@ Definition dec_world (v : val) : option xworld :=
 
 (* steps as the harness decodes them *)
 Inductive xstep :=
-| XSet (v : bytes) | XUnset | XSleep | XConv (local : bool) | XSpawn | XJoin | XSkip | XClockStep.
+| XSet (v : bytes) | XUnset | XSleep | XConv (local : bool) (d : Z * Z * Z) | XSpawn | XJoin | XSkip | XClockStep.
 
-Definition valid_ndt (v : val) : bool :=
+Definition dec_ndt (v : val) : option (Z * Z * Z) :=
   match v with
   | VTup [VInt y; VInt o; VInt s; VInt f] =>
       (* what the harness accepts: a date in 1971..2037, time of day with an optional leap fraction *)
       let leap := ((y mod 4 =? 0) && negb (y mod 100 =? 0)) || (y mod 400 =? 0) in
-      (1971 <=? y) && (y <=? 2037) && (1 <=? o) && (o <=? (if leap then 366 else 365))
-      && (0 <=? s) && (s <? 86400) && (0 <=? f) && (f <? 2000000000)
-  | _ => false
+      if (1971 <=? y) && (y <=? 2037) && (1 <=? o) && (o <=? (if leap then 366 else 365))
+         && (0 <=? s) && (s <? 86400) && (0 <=? f) && (f <? 2000000000)
+      then Some (y, o, s) else None
+  | _ => None
   end.
 
 Definition dec_step (v : val) : option xstep :=
@@ -334,7 +365,10 @@ Definition dec_step (v : val) : option xstep :=
   | VTup [VInt 1] => Some XUnset
   | VTup [VInt 2; VInt ms] => if (0 <=? ms) && (ms <=? 5000) then Some XSleep else None
   | VTup [VInt 3; VInt d; t] =>
-      if ((d =? 0) || (d =? 1)) && valid_ndt t then Some (XConv (d =? 1)) else None
+      match dec_ndt t with
+      | Some n => if (d =? 0) || (d =? 1) then Some (XConv (d =? 1) n) else None
+      | None => None
+      end
   | VTup [VInt 4] => Some XSpawn
   | VTup [VInt 5] => Some XJoin
   | VTup [VInt 6; VInt ms] => if (0 <=? ms) && (ms <=? 100000000) then Some XSkip else None
@@ -354,28 +388,28 @@ Fixpoint dec_times (l : list val) : option (list (Z * Z)) :=
   | _ => None
   end.
 
-Definition xoracle (x : xworld) : oracle Z bytes unit val :=
-  {| o_utc := 0;
-     o_rule := fun s => assoc s (x_rules x);
+Definition xoracle (x : xworld) : oracle xzone bytes (Z * Z * Z) val :=
+  {| o_utc := zfixed 0;
+     o_rule := fun s => match assoc s (x_rules x) with Some o => Some (zfixed o) | None => None end;
      o_iana := x_iana x;
      o_hash := fun s => s;
      o_hash_eqb := bytes_eqb;
-     o_answer := fun z local _ => if local then VTup [VInt z] else VInt z |}.
+     o_answer := xanswer |}.
 
-Definition xinit (x : xworld) : world Z :=
+Definition xinit (x : xworld) : world xzone :=
   {| w_tz := None; w_wall := 0; w_mono := 0; w_mtime := Some 0;
      w_files := fun p => assoc p (x_files x) |}.
 
 (* measured readings become clock movements just before each conversion: first the time that
    really passed (monotonic reading), then whatever else happened to the wall clock *)
-Fixpoint ops_of (steps : list xstep) (times : list (Z * Z)) (wall mono : Z) : option (list (op unit)) :=
+Fixpoint ops_of (steps : list xstep) (times : list (Z * Z)) (wall mono : Z) : option (list (op (Z * Z * Z))) :=
   match steps, times with
   | [], [] => Some []
   | s :: rs, (w0, m0) :: rt =>
       match s with
-      | XConv local =>
+      | XConv local d =>
           match ops_of rs rt w0 m0 with
-          | Some l => Some (Advance (m0 - mono) :: ClockStep (w0 - (wall + (m0 - mono))) :: Convert local tt :: l)
+          | Some l => Some (Advance (m0 - mono) :: ClockStep (w0 - (wall + (m0 - mono))) :: Convert local d :: l)
           | None => None
           end
       | _ =>
